@@ -12,7 +12,7 @@ from lib.common import cps
 
 PROP = 'C07'
 LEVEL = 'proof'
-PROPS_MODULES = ['RTV.Props.C07']
+PROPS_MODULES = ['RTV.Props.C07', 'RTV.Props.C07Ranges']
 GEN = ['chartables', 'dtmaps']
 REQUIRED_THEOREMS = ['clock24', 'clock24_partial', 'clock24_hour0_unresolved', 'clock24_hour0_repaired', 'clock12',
                      'clock12_partial', 'ambiguous_two_readings', 'date_at_time', 'date_at_time_unambiguous',
@@ -20,7 +20,9 @@ REQUIRED_THEOREMS = ['clock24', 'clock24_partial', 'clock24_hour0_unresolved', '
                      'date_at_time_cultures', 'designator_cultures', 'afternoon_12_both_readings', 'afternoon_12_repaired',
                      'clock24_zh', 'zh_ampm_any_hour_witness', 'zh_1913_guarded', 'zh_designator_examples',
                      'date_at_designator', 'date_at_designator_cultures', 'date_word_shift', 'night_alone_is_2am',
-                     'night_attached_shift', 'time_of_today_pm_word', 'time_of_today_morning', 'tonight_examples']
+                     'night_attached_shift', 'time_of_today_pm_word', 'time_of_today_morning', 'tonight_examples',
+                     'time_range_unambiguous', 'time_range_span', 'time_range_resolution_plain', 'time_range_resolution_ampm',
+                     'timerange_pm_overflow_witness', 'timerange_loose_timex_witness']
 RULE = ('unit: DateTimeFormatUtil over full ranges (luis_time/short_time 24x60x{none,0..59}, luis_date, format_*, '
         'to_pm, all_str_to_pm); match_to_time on every match of AtRegex/TimeRegex1..11/ConnectNumRegex over generated '
         'English time strings (digits x minutes x seconds x am/pm spellings x prefixes x suffixes x written forms); '
@@ -188,7 +190,7 @@ def unit_format(ctx, T):
             impl.append(str(int(s)))
         except ValueError:
             impl.append('err:ValueError')
-    model = common.driver(lines)
+    model = dtres.drive(lines)
     ctx.count('DateTimeFormatUtil', len(lines))
     for l, a, m in zip(lines, impl, model):
         if a != m:
@@ -268,7 +270,7 @@ def unit_match_to_time(ctx, T, variant):
                 lines.append('\t'.join(['dt.m2t', dtres.dt_field(ref), spec['tag'], variant, else_pm] + fields))
                 impl.append(a)
                 meta.append((culture, name, m.group(), groups, ref))
-    model = common.driver(lines)
+    model = dtres.drive(lines)
     ctx.count('match_to_time', len(lines))
     hist, per = {}, {}
     pending = []
@@ -333,7 +335,7 @@ def unit_word_hour(ctx, T):
             impl.append(a)
     finally:
         del tp.match_to_time
-    model = common.driver(lines)
+    model = dtres.drive(lines)
     ctx.count('number-word hour', len(lines))
     for l, a, m in zip(lines, impl, model):
         if a != 'none':
@@ -395,7 +397,7 @@ def unit_zh_time(ctx, T):
                                    [cps(x) for x in g]))
             impl.append(a)
             meta.append((s, er.text, key))
-    model = common.driver(lines)
+    model = dtres.drive(lines)
     ctx.count('ChineseTimeParser.parse', len(lines))
     for (s, text, key), l, a, m in zip(meta, lines, impl, model):
         if a.startswith('1|'):
@@ -465,7 +467,7 @@ def unit_resolution(ctx, T):
             a = dtres.err_kind(e)
         lines.append('\t'.join(['dt.res', dtype, dtres.b(ok), cps(timex), cps(comment), dtres.dt_field(fut), dtres.dt_field(past)]))
         impl.append(a)
-    model = common.driver(lines)
+    model = dtres.drive(lines)
     ctx.count('_date_time_resolution', len(lines))
     for l, a, m in zip(lines, impl, model):
         if a not in ('none',) and not a.startswith('err'):
@@ -543,7 +545,7 @@ def unit_merge(ctx, T, variant):
                         meta.append((src, ref))
     finally:
         dp.parse, tp.parse = odp, otp
-    model = common.driver(lines)
+    model = dtres.drive(lines)
     ctx.count('merge_date_and_time', len(lines))
     for (src, ref), l, a, m in zip(meta, lines, impl, model):
         if a.startswith('1|'):
@@ -607,7 +609,7 @@ def unit_time_of_today(ctx, T):
             meta.append((src, ref))
     finally:
         tp.parse = otp
-    model = common.driver(lines)
+    model = dtres.drive(lines)
     ctx.count('parse_time_of_today', len(lines))
     for (src, ref), l, a, m in zip(meta, lines, impl, model):
         if a.startswith('1|'):
@@ -616,6 +618,115 @@ def unit_time_of_today(ctx, T):
             dtres.report(ctx, 'correspondence', 'parse_time_of_today', 'parse_time_of_today(%r, %s): implementation %s, model %s' % (
                 src, ref, a, m), failing_input={'op': l, 'source': src, 'reference': str(ref), 'implementation': a, 'model': m})
     ctx.sample({'op': lines[5], 'implementation': impl[5]})
+
+
+def unit_time_ranges(ctx, T):
+    """BaseTimePeriodParser.merge_two_time_points (the two time-point parses are snapshotted before the function rewrites
+    them) and the timerange branch of _date_time_resolution / _resolve_ampm."""
+    from recognizers_date_time.date_time.parsers import DateTimeParseResult
+    from recognizers_text.extractor import ExtractResult
+    merged = T.merged()
+    tpp = merged.config.time_period_parser
+    tp = tpp.config.time_parser
+    otp = tp.parse
+    snaps = []
+
+    def rec_t(er, ref=None):
+        r = otp(er, ref)
+        snaps.append({'ok': bool(r.value), 'timex': r.timex_str or '', 'comment': (r.value.comment or '') if r.value else '',
+                      'future': r.value.future_value if r.value else None})
+        return r
+
+    try:
+        probe = tpp.merge_two_time_points('half past 3 to 1:05', ref_dt(REFS[1]))
+        padded = '0' if (probe.success and 'T13:5,' in probe.timex) else '1'
+    except Exception:
+        padded = '0'
+    ctx.extra['time_range_variants'] = {'to_pm wraps modulo 24': dtres.PM_WRAPS, 'merge_two_time_points pads its timex': padded == '1'}
+    points = ['7', '7:30', '5:05', '12', '12:05', '11:30', '1', '3pm', '5:30pm', '11pm', '2am', '10:05', '9:07', '12am', '12pm',
+              '13:15', '23:59', '0:10', 'noon', 'midnight', '7 in the morning', '9 at night', 'half past 3', '6:45 p.m.', '7:30:15']
+    lines, impl, meta = [], [], []
+    presults = []
+    tp.parse = rec_t
+    try:
+        k = 0
+        for a_ in points:
+            for b_ in points:
+                for form in ('from %s to %s', '%s to %s', 'between %s and %s', '%s - %s', '%s until %s'):
+                    src = (form % (a_, b_)).lower()
+                    ref = ref_dt(REFS[k % len(REFS)])
+                    k += 1
+                    del snaps[:]
+                    try:
+                        r = tpp.merge_two_time_points(src, ref)
+                        if r.success:
+                            mid = ref.replace(hour=0, minute=0, second=0)
+                            st = int((r.future_value.start - mid).total_seconds())
+                            en = int((r.future_value.end - mid).total_seconds())
+                            a = '1|%s|%s|%d|%d' % (cps(r.timex), cps(r.comment or ''), st, en)
+                            presults.append((r.timex, r.comment or '', r.future_value.start, r.future_value.end, st, en))
+                        else:
+                            a = '0|-|-|0|0'
+                    except Exception as e:
+                        a = dtres.err_kind(e)
+                    if len(snaps) != 2:
+                        continue
+                    f = []
+                    for sn in snaps:
+                        f += [dtres.b(sn['ok']), cps(sn['timex']), cps(sn['comment']),
+                              dtres.dt_field(sn['future']) if sn['ok'] else '1,1,1,0,0,0']
+                    lines.append('\t'.join(['dt.m2tp', padded] + f))
+                    impl.append(a)
+                    meta.append(src)
+    finally:
+        tp.parse = otp
+    model = dtres.drive(lines)
+    ctx.count('merge_two_time_points', len(lines))
+    floats = 0
+    for src, l, a, m in zip(meta, lines, impl, model):
+        if m == 'err:Float':
+            floats += 1          # a span with seconds: the code prints a float, not modelled
+            continue
+        if a.startswith('1|'):
+            ctx.nontriv(('m2tp', src))
+        if a != m:
+            dtres.report(ctx, 'correspondence', 'merge_two_time_points', 'merge_two_time_points(%r): implementation %s, model %s' % (
+                src, a, m), failing_input={'op': l, 'source': src, 'implementation': a, 'model': m})
+    ctx.extra['time_range_spans_with_seconds_skipped'] = floats
+    # resolution of the ranges obtained above
+    TT = T.TimeTypeConstants
+    F = T.utilities.DateTimeFormatUtil
+    seen = set()
+    lines, impl = [], []
+    for timex, comment, start, end, st, en in presults:
+        key = (timex, comment, st, en)
+        if key in seen:
+            continue
+        seen.add(key)
+        src = ExtractResult()
+        src.start, src.length, src.text, src.type = 0, 1, 'x', 'timerange'
+        slot = DateTimeParseResult(src)
+        slot.type = 'timerange'
+        val = T.utilities.DateTimeResolutionResult()
+        val.success, val.timex, val.comment = True, timex, comment
+        val.future_resolution = {TT.START_TIME: F.format_time(start), TT.END_TIME: F.format_time(end)}
+        val.past_resolution = dict(val.future_resolution)
+        slot.value, slot.timex_str = val, timex
+        try:
+            res = merged._date_time_resolution(slot, False, False, False)
+            a = ';'.join('%s~%s~%s~%s' % (cps(v.get('timex', '')), cps(v.get('type', '')), cps(v.get('start', '')), cps(v.get('end', '')))
+                         for v in res['values'])
+        except Exception as e:
+            a = dtres.err_kind(e)
+        lines.append('\t'.join(['dt.tpres', '1', cps(timex), cps(comment), str(st), str(en)]))
+        impl.append(a)
+    model = dtres.drive(lines) if lines else []
+    ctx.count('_date_time_resolution(timerange)', len(lines))
+    for l, a, m in zip(lines, impl, model):
+        ctx.nontriv(('tpres', l))
+        if a != m:
+            dtres.report(ctx, 'correspondence', 'timerange-resolution', '%s: implementation %s, model %s' % (l.replace('\t', ' '), a, m),
+                         failing_input={'op': l, 'implementation': a, 'model': m})
 
 
 # ---------------------------------------------------------------- pipeline
@@ -831,8 +942,50 @@ def pipeline(ctx, variant):
         for w, hh, mm in spec.get('designators', []):
             add('designator-alone:' + culture, w, wrefs[0], 'time',
                 [('T%02d' % hh + (':%02d' % mm if ':' in w else ''), '%02d:%02d:00' % (hh, mm))], '%s', culture)
+    # time ranges from two clock points (companion family: values must be well formed, C11-style; exact triple when both
+    # points carry am / pm)
+    range_cases = []
+    rpoints = ['7', '7:30', '5:05', '12:05', '11:30', '1:05', 'half past 3', '10:05', '9:07', '3pm', '5:30pm', '11pm', '2am', '12am', '12pm']
+    for i, a_ in enumerate(rpoints):
+        for j, b_ in enumerate(rpoints):
+            if i != j and (ctx.thorough or (i * 7 + j) % 3 == 0):
+                for form in ('from %s to %s', '%s to %s'):
+                    range_cases.append(('en-us', form % (a_, b_), REFS[(i + j) % len(REFS)]))
+    for q_ in ('five past 1 to 3pm', 'from five past one to 3pm', '5 past 1 to 3 pm', 'half past 3 to 1:05', '1:05 to 3pm'):
+        range_cases.append(('en-us', q_, REFS[1]))
     ctx.extra['pipeline_cases'] = len(cases)
-    results = dtres.run_queries([(culture_of[i], c[1], c[2]) for i, c in enumerate(cases)])
+    results = dtres.run_queries([(culture_of[i], c[1], c[2]) for i, c in enumerate(cases)] + range_cases)
+    range_results = results[len(cases):]
+    results = results[:len(cases)]
+    import re as _re2
+    tpart = r'T([01]\d|2[0-3])(:[0-5]\d){0,2}'
+    range_timex = _re2.compile(r'^\(' + tpart + ',' + tpart + r',PT(\d+H)?(\d+M)?(\d+S)?\)$')
+    clock = _re2.compile(r'^([01]\d|2[0-3]):[0-5]\d:[0-5]\d$')
+    rpend = []
+    nrange = 0
+    for (culture, q, ref), rr in zip(range_cases, range_results):
+        if isinstance(rr, str):
+            continue
+        for ent in rr:
+            if ent[3] != 'datetimeV2.timerange' or ent[5] is None:
+                continue
+            nrange += 1
+            for v in ent[5]['values']:
+                st, en, tx = v.get('start', ''), v.get('end', ''), v.get('timex', '')
+                bad = None
+                if not clock.match(st) or not clock.match(en):
+                    bad, sig = 'start %r / end %r is not a clock time' % (st, en), 'timerange-pm-overflow'
+                elif tx.startswith('(') and not range_timex.match(tx):
+                    bad, sig = 'TIMEX %r is not (Thh[:mm[:ss]],Thh[:mm[:ss]],PT…)' % tx, 'timerange-loose-timex'
+                if bad:
+                    rpend.append((sig, 'parse[en-us](%r, ref %s): value %r: %s' % (q, ref, v, bad),
+                                  {'op': 'recognize_datetime', 'culture': 'en-us', 'query': q, 'reference': list(ref),
+                                   'value': v, 'observed': bad}))
+                else:
+                    ctx.nontriv(('range', q, tx))
+    ctx.count('pipeline:time-range-wellformed:en-us', len(range_cases))
+    ctx.extra['time_range_entities'] = nrange
+    emit(ctx, rpend)
     fam = {}
     pending = []
     for idx, ((family, q, ref, expr, want_type, expected), res) in enumerate(zip(cases, results)):
@@ -925,4 +1078,5 @@ def correspond(ctx):
     unit_resolution(ctx, T)
     unit_merge(ctx, T, variant)
     unit_time_of_today(ctx, T)
+    unit_time_ranges(ctx, T)
     pipeline(ctx, variant)
